@@ -865,6 +865,9 @@ def value_method(self, st, recv, name, args, kwargs, lv):
             k = coerce(a[0], ty.key).term
             cell = z3.Select(recv.term, k)
             new = z3.Store(recv.term, k, ty.opt.none())
+            # len(dict) bookkeeping: removing a key shrinks the key set by one exactly when the key was present
+            st.assume(ops.card(ops.set_keys(Val(new, ty)).term, ty.key.sort()) ==
+                      ops.card(ops.set_keys(recv).term, ty.key.sort()) - z3.If(ty.opt.is_some(cell), 1, 0))
             if len(a) > 1:
                 store(new)
                 if isinstance(a[1], NoneVal):
